@@ -126,6 +126,10 @@ func (w *vhWorld) multi(es []vhEntry, msgs [][]byte) hotstuff.QuorumSignature {
 // signSel signs the selected message. All candidate messages have the same length, so the
 // selection is bytewise (no fork in the engine); the owner stays symbolic as well.
 func (w *vhWorld) signSel(e vhEntry, msgs [][]byte) []byte {
+	if !w.sym {
+		// natively message lengths may differ (DER-encoded ECDSA signatures vary in length)
+		return crypto.VSignAs(e.owner, w.n, msgs[e.msg], false, w.ed)
+	}
 	sel := make([]byte, len(msgs[0]))
 	for i := range sel {
 		x := msgs[0][i]
@@ -224,4 +228,238 @@ func vhB(b bool) uint64 {
 		return 1
 	}
 	return 0
+}
+
+// C02(b): VerifyTimeoutCert soundness.
+func VH_C02_tc(n int, m int, cache int, ed int) {
+	w := vhNewWorld(1, n, ed == 1, cache)
+	label := hotstuff.View(nondetU64("label"))
+	msgs := [][]byte{label.ToBytes(), (label + 1).ToBytes(), (label ^ 1<<40).ToBytes()}
+	es := w.entries(m, len(msgs))
+	tc := hotstuff.NewTimeoutCert(w.multi(es, msgs), label)
+	vclass("repeated-claimed-signer", vhRepeated(es))
+	err := w.auth.VerifyTimeoutCert(tc)
+	q := hotstuff.QuorumSize(n)
+	vobserve("accepted", vhB(err == nil))
+	if err == nil {
+		vcover("accepted")
+		if label != 0 {
+			vcover("accepted-nonzero-view")
+			vassert(w.honest(es, 0) >= q, "accepted-tc-has-quorum-of-distinct-valid-signatures")
+		}
+	}
+	err2 := w.auth.VerifyTimeoutCert(tc)
+	vassert((err2 == nil) == (err == nil), "verdict-stable-on-repeat")
+}
+
+// C02(d): VerifyPartialCert soundness: accepted only if every entry is a valid signature of
+// its claimed, configured signer over the named stored block.
+func VH_C02_pc(n int, m int, cache int, ed int) {
+	w := vhNewWorld(1, n, ed == 1, cache)
+	vB := hotstuff.View(nondetU64("vB"))
+	gen := hotstuff.GetGenesis()
+	gqc := hotstuff.NewQuorumCert(nil, 0, gen.Hash())
+	B := hotstuff.VMakeBlock(hotstuff.VHash(0), gen.Hash(), gqc, &clientpb.Batch{}, vB, 1)
+	B2 := hotstuff.VMakeBlock(hotstuff.VHash(1), gen.Hash(), gqc, &clientpb.Batch{}, vB+1, 1)
+	w.chain.Store(B)
+	msgs := [][]byte{B.ToBytes(), B2.ToBytes()}
+	es := w.entries(m, len(msgs))
+	known := nondetBool("names-known-block")
+	h := B.Hash()
+	if !known {
+		h = hotstuff.VHash(100)
+	}
+	pc := hotstuff.NewPartialCert(w.multi(es, msgs), h)
+	err := w.auth.VerifyPartialCert(pc)
+	vobserve("accepted", vhB(err == nil))
+	if err == nil {
+		vcover("accepted")
+		vassert(known, "accepted-vote-names-a-known-block")
+		vassert(m >= 1, "accepted-vote-has-a-signature")
+		for _, e := range es {
+			vassert(int(e.claimed) >= 1 && int(e.claimed) <= n && e.owner == int(e.claimed)-1 && e.msg == 0, "accepted-vote-entries-all-valid")
+		}
+		vassert(w.honest(es, 0) == m, "accepted-vote-signers-distinct")
+		if m >= 1 {
+			vassert(pc.Signer() == es[0].claimed, "vote-signer-is-first-entry")
+		}
+	}
+}
+
+// rot returns the 1-based replica that is i-th in the rotation starting at start.
+func vhRot(start, i, n int) int { return (start+i)%n + 1 }
+
+// C02(e): completeness. A quorum of honest replicas (any rotation of the membership) signs a
+// block / a view / their timeout messages; the assembled certificates verify at every replica.
+func VH_C02_complete(n int, extra int, cache int, ed int) {
+	w := vhNewWorld(1, n, ed == 1, cache)
+	q := hotstuff.QuorumSize(n)
+	cnt := q + extra
+	vassume(cnt <= n && cnt >= 2)
+	start := nondetInt("start")
+	vassume(start >= 0 && start < n)
+	vB := hotstuff.View(nondetU64("vB"))
+	vassume(vB >= 1)
+	gen := hotstuff.GetGenesis()
+	gqc := hotstuff.NewQuorumCert(nil, 0, gen.Hash())
+	B := hotstuff.VMakeBlock(hotstuff.VHash(0), gen.Hash(), gqc, &clientpb.Batch{}, vB, 1)
+	w.chain.Store(B)
+	auths := make([]*Authority, n+1)
+	for s := 1; s <= n; s++ {
+		auths[s] = w.authFor(s, cache, core.WithAggregateQC())
+	}
+	// votes -> QC
+	var pcs []hotstuff.PartialCert
+	for i := 0; i < cnt; i++ {
+		s := vhRot(start, i, n)
+		pc, err := auths[s].CreatePartialCert(B)
+		vassert(err == nil, "create-partial-cert")
+		vassert(pc.Signer() == hotstuff.ID(s), "partial-cert-signer")
+		vassert(auths[1].VerifyPartialCert(pc) == nil, "honest-vote-verifies")
+		pcs = append(pcs, pc)
+	}
+	qc, err := auths[1].CreateQuorumCert(B, pcs)
+	vassert(err == nil, "create-qc")
+	vassert(qc.View() == vB && qc.BlockHash() == B.Hash(), "qc-names-block-and-view")
+	vassert(qc.Signature().Participants().Len() == cnt, "qc-participants")
+	// timeouts -> TC and AggQC
+	tview := hotstuff.View(nondetU64("tview"))
+	vassume(tview >= 1)
+	var tos []hotstuff.TimeoutMsg
+	for i := 0; i < cnt; i++ {
+		s := vhRot(start, i, n)
+		vs, err := auths[s].Sign(tview.ToBytes())
+		vassert(err == nil, "sign-view")
+		tm := hotstuff.TimeoutMsg{ID: hotstuff.ID(s), View: tview, ViewSignature: vs, SyncInfo: hotstuff.NewSyncInfoWith(qc)}
+		ms, err := auths[s].Sign(tm.ToBytes())
+		vassert(err == nil, "sign-timeout-message")
+		tm.MsgSignature = ms
+		tos = append(tos, tm)
+	}
+	tc, err := auths[1].CreateTimeoutCert(tview, tos)
+	vassert(err == nil, "create-tc")
+	agg, err := auths[1].CreateAggregateQC(tview, tos)
+	vassert(err == nil, "create-aggqc")
+	vcover("assembled")
+	for s := 1; s <= n; s++ {
+		vassert(auths[s].VerifyQuorumCert(qc) == nil, "honest-qc-verifies-everywhere")
+		vassert(auths[s].VerifyTimeoutCert(tc) == nil, "honest-tc-verifies-everywhere")
+		high, err := auths[s].VerifyAggregateQC(agg)
+		vassert(err == nil, "honest-aggqc-verifies-everywhere")
+		if err == nil {
+			vassert(high.Equals(qc), "aggqc-high-qc-is-the-attested-qc")
+		}
+	}
+}
+
+// honestQC builds a QC for block b signed by the first cnt replicas; with bad set, the last
+// signature is bytes that verify for nobody (same length, so all variants encode equally long).
+func (w *vhWorld) honestQC(b *hotstuff.Block, cnt int, bad bool) hotstuff.QuorumCert {
+	es := make([]vhEntry, cnt)
+	for i := range es {
+		es[i] = vhEntry{claimed: hotstuff.ID(i + 1), owner: i, msg: 0}
+		if bad && i == cnt-1 {
+			es[i].owner = w.n
+		}
+	}
+	return hotstuff.NewQuorumCert(w.multi(es, [][]byte{b.ToBytes()}), b.View(), b.Hash())
+}
+
+// C02(c): VerifyAggregateQC soundness. r attested QCs (pattern pat picks, per entry, a valid QC
+// for B, a valid QC for B2 or an invalid QC for B), ids by idpat, m adversarial entries in the
+// aggregate signature.
+func VH_C02_agg(n int, r int, m int, pat int, idpat int, ed int) {
+	w := vhNewWorld(1, n, ed == 1, 0, core.WithAggregateQC())
+	q := hotstuff.QuorumSize(n)
+	vB := hotstuff.View(nondetU64("vB"))
+	vB2 := hotstuff.View(nondetU64("vB2"))
+	vassume(vB >= 1 && vB2 >= 1 && vB < 1<<62 && vB2 < 1<<62)
+	gen := hotstuff.GetGenesis()
+	gqc := hotstuff.NewQuorumCert(nil, 0, gen.Hash())
+	B := hotstuff.VMakeBlock(hotstuff.VHash(0), gen.Hash(), gqc, &clientpb.Batch{}, vB, 1)
+	B2 := hotstuff.VMakeBlock(hotstuff.VHash(1), gen.Hash(), gqc, &clientpb.Batch{}, vB2, 2)
+	w.chain.Store(B)
+	w.chain.Store(B2)
+	variants := []hotstuff.QuorumCert{w.honestQC(B, q, false), w.honestQC(B2, q, false), w.honestQC(B, q, true)}
+	aggView := hotstuff.View(nondetU64("aggview"))
+	ids := make([]hotstuff.ID, r)
+	kinds := make([]int, r)
+	qcs := make(map[hotstuff.ID]hotstuff.QuorumCert)
+	var msgs [][]byte
+	p := pat
+	for i := 0; i < r; i++ {
+		switch idpat {
+		case 0:
+			ids[i] = hotstuff.ID(i + 1)
+		case 1:
+			ids[i] = hotstuff.ID(n - i)
+		default:
+			ids[i] = hotstuff.ID(i + 1)
+			if i == r-1 {
+				ids[i] = hotstuff.ID(n + 5) // not a member
+			}
+		}
+		kinds[i] = p % 3
+		p /= 3
+		qcs[ids[i]] = variants[kinds[i]]
+		msgs = append(msgs, hotstuff.TimeoutMsg{ID: ids[i], View: aggView, SyncInfo: hotstuff.NewSyncInfoWith(variants[kinds[i]])}.ToBytes())
+	}
+	// a foreign message: entry 0's message for another view
+	msgs = append(msgs, hotstuff.TimeoutMsg{ID: ids[0], View: aggView + 1, SyncInfo: hotstuff.NewSyncInfoWith(variants[kinds[0]])}.ToBytes())
+	es := w.entries(m, len(msgs))
+	agg := hotstuff.NewAggregateQC(qcs, w.multi(es, msgs), aggView)
+	high, err := w.auth.VerifyAggregateQC(agg)
+	vobserve("accepted", vhB(err == nil))
+	if err != nil {
+		return
+	}
+	vcover("accepted")
+	// ground truth: distinct configured signers that signed their own timeout message
+	c := 0
+	for s := 1; s <= n; s++ {
+		ok := false
+		for _, e := range es {
+			for i := 0; i < r; i++ {
+				if int(ids[i]) == s && int(e.claimed) == s && e.owner == s-1 && e.msg == i {
+					ok = true
+				}
+			}
+		}
+		if ok {
+			c++
+		}
+	}
+	vassert(c >= q, "accepted-aggqc-has-quorum-of-own-message-signatures")
+	// the reported high QC is a valid attested QC of maximal view
+	isAttested := false
+	var best hotstuff.View
+	anyValid := false
+	for i := 0; i < r; i++ {
+		// attested: entry i's timeout message carries a valid signature of replica ids[i]
+		att := false
+		for _, e := range es {
+			if e.claimed == ids[i] && int(ids[i]) >= 1 && int(ids[i]) <= n && e.owner == int(ids[i])-1 && e.msg == i {
+				att = true
+			}
+		}
+		vassert(att, "every-qc-in-an-accepted-aggqc-is-attested-by-its-signer")
+		if kinds[i] == 2 || !att {
+			continue
+		}
+		anyValid = true
+		v := vB
+		if kinds[i] == 1 {
+			v = vB2
+		}
+		if v > best {
+			best = v
+		}
+		if high.Equals(variants[kinds[i]]) {
+			isAttested = true
+		}
+	}
+	vassert(anyValid, "accepted-aggqc-attests-a-valid-qc")
+	vassert(isAttested, "high-qc-is-a-valid-attested-qc")
+	vassert(high.View() == best, "high-qc-has-the-highest-view-among-valid-attested")
+	vassert(w.auth.VerifyQuorumCert(high) == nil, "high-qc-verifies")
 }
